@@ -51,6 +51,7 @@ def main():
         subprocess.run([sys.executable, os.path.join(VERIF, "tools", "rust2lean_search.py")], capture_output=True, env=env)
         subprocess.run([sys.executable, os.path.join(VERIF, "tools", "rust2lean_text.py")], capture_output=True, env=env)
         subprocess.run([sys.executable, os.path.join(VERIF, "tools", "py2lean_style.py")], capture_output=True, env=env)
+        subprocess.run([sys.executable, os.path.join(VERIF, "tools", "rust2lean_session.py")], capture_output=True, env=env)
     print(json.dumps({"patch": patch, "tier": tier, "caught_by": [p for p, v in out.items() if v["rc"] == 1], "results": out}))
     return 0
 if __name__ == "__main__":
